@@ -73,6 +73,11 @@ Allocate(n, a) == /\ n \in reg /\ a \in AllocIds /\ a \notin held[n] /\ Fits(hel
                   /\ Step([op |-> "alloc", n |-> n, a |-> a, res |-> Size[a]], reg, [held EXCEPT ![n] = @ \cup {a}], resv, pol, [dirty EXCEPT ![n] = FALSE])
 Release(n, a) == /\ n \in reg /\ a \in AllocIds /\ a \in held[n]
                  /\ Step([op |-> "rel", n |-> n, a |-> a], reg, [held EXCEPT ![n] = @ \ {a}], resv, pol, [dirty EXCEPT ![n] = FALSE])
+\* a placeholder is replaced in place by a real allocation that is no larger (Node.ReplaceAllocation): the utilisation drops
+Replace(n, a, b) == /\ n \in reg /\ a \in AllocIds /\ a \in held[n] /\ b \in AllocIds /\ b \notin held[n]
+                    /\ \A t \in DOMAIN Size[b] : t \in DOMAIN Size[a] /\ Size[b][t] <= Size[a][t]
+                    /\ Step([op |-> "repl", n |-> n, a |-> a, b |-> b, res |-> Size[b], old |-> Size[a]], reg,
+                            [held EXCEPT ![n] = (@ \ {a}) \cup {b}], resv, pol, [dirty EXCEPT ![n] = FALSE])
 \* a foreign allocation (a pod not scheduled by yunikorn) occupies part of the node
 ForeignAdd(n, a) == /\ n \in reg /\ a \in ForeignIds /\ a \notin held[n] /\ Fits(held, n, a)
                     /\ Step([op |-> "falloc", n |-> n, a |-> a, res |-> Size[a]], reg, [held EXCEPT ![n] = @ \cup {a}], resv, pol, [dirty EXCEPT ![n] = TRUE])
@@ -88,7 +93,7 @@ SetPolicy(p) == /\ p \in Policies /\ p # pol
 
 Next == /\ Len(hist) < MaxOps
         /\ \/ \E n \in Nodes : AddNode(n) \/ RemoveNode(n) \/ Reserve(n) \/ Unreserve(n)
-           \/ \E n \in Nodes, a \in AllocIds : Allocate(n, a) \/ Release(n, a)
+           \/ \E n \in Nodes, a \in AllocIds : Allocate(n, a) \/ Release(n, a) \/ \E b \in AllocIds : Replace(n, a, b)
            \/ \E n \in Nodes, a \in ForeignIds : ForeignAdd(n, a) \/ ForeignRemove(n, a)
            \/ \E p \in Policies : SetPolicy(p)
 Spec == Init /\ [][Next]_vars
